@@ -28,6 +28,39 @@ def refs_allof(t, env):
     return False
 
 
+def union_members_overlap(sem, t, env):
+    """some union inside t (or inside a named type it reaches) has two object members one of which, read as an open pattern,
+    contains every exact value of the other: the situation in which the decision diagram's expansion changes the meaning"""
+    envd = dict(env)
+    seen, todo, unions = set(), [t], []
+    while todo:
+        x = todo.pop()
+        for n in semref.nodes(x):
+            if n[0] == "AnyOf": unions.append(n)
+            if n[0] == "Ref" and n[1] not in seen and n[1] in envd:
+                seen.add(n[1]); todo.append(envd[n[1]])
+    def flat(n):
+        out = []
+        for m in n[1]:
+            m = semref.strip(m)
+            if m[0] == "AnyOf": out += flat(m)
+            elif m[0] == "Ref" and m[1] in envd and semref.strip(envd[m[1]])[0] == "AnyOf": out += flat(semref.strip(envd[m[1]]))
+            else: out.append(m)
+        return out
+    for u in unions:
+        objs = [o for o in (sem.as_object(m) for m in flat(u)) if o is not None]
+        for i, m1 in enumerate(objs):
+            for j, m2 in enumerate(objs):
+                if i == j: continue
+                try:
+                    uni = sem.universe([m1, m2])
+                    vals, _ = sem.enumerate(m2, uni, 3, 30)
+                    if vals and all(sem.member(m1, v, False) for v in vals): return True
+                except (semref.Incomplete, RecursionError):
+                    pass
+    return False
+
+
 def basic_type(g, depth=2):
     r = g.r
     if depth <= 0 or r.random() < 0.5: return g.leaf()
@@ -90,13 +123,22 @@ def check(run):
             unjudged += 1
             continue
         inter = refs_allof(a, env) or refs_allof(b, env)
+        sem0 = semref.Sem(env)
+        overlap = None
         def bad(kind, payload, cls="intersection_of_object_types_in_assignability"):
+            nonlocal overlap
             if how.startswith("witness:"):
                 reproduced.add(how.split(":", 1)[1])
-            elif inter and cls in listed:
+                return
+            if inter and cls in listed:
                 in_known[cls] += 1
-            else:
-                fails.append((kind, payload))
+                return
+            if "union_members_overlap_as_open_patterns" in listed:
+                if overlap is None: overlap = union_members_overlap(sem0, a, env) or union_members_overlap(sem0, b, env)
+                if overlap:
+                    in_known["union_members_overlap_as_open_patterns"] += 1
+                    return
+            fails.append((kind, payload))
         for q in QUERIES:
             if o0[q] != o1[q]:
                 bad("decision-depends-on-conversion-or-query-order", dict(desc, query=q, first_a=o0[q] if jobs[2 * i]["first"] == "a" else o1[q],
